@@ -274,9 +274,9 @@ def scanDown (p : α) : α → List (Int × α) → List (Int × α) → α × L
 /-- `pvalues[&k]` (panics on a missing key) -/
 def pvGet (pv : List (Int × α)) (k : Int) : Option α := (pv.find? (fun e => e.1 == k)).map (·.2)
 
-/-- `lookup_score(pvalue, min..=max)` = `(alpha, range.start, range.end)`; `none` = panic -/
-def lookupScore (rc : Rec α) (bg : List α) (p : α) (min max : Int) : Option (Int × α × α) :=
-  let q := distribution rc.im bg min max
+/-- the part of `lookup_score` after `self.distribution(min, max)`: `q` is `qvalues[M-1]`,
+    `errMax` is `self.error_max` -/
+def lookupScoreQ (errMax : α) (q : IMap α) (p : α) : Option (Int × α × α) :=
   match scanDown p Num.zero [] q.reverse with
   | (_, _, []) => none                       -- `keys.len() - 1` on an empty key list
   | (sum, pv, cur :: below) =>
@@ -287,7 +287,7 @@ def lookupScore (rc : Rec α) (bg : List α) (p : α) (min max : Int) : Option (
       | [] => none
       | e :: pv' => if e.1 = cur.1 then pv'.head?.map (·.1) else some e.1
     let fin (alpha alphaE : Int) (pv : List (Int × α)) : Option (Int × α × α) :=
-      if Num.lt rc.errorMax (Num.ofInt (alpha - alphaE)) then
+      if Num.lt errMax (Num.ofInt (alpha - alphaE)) then
         match pvGet pv alpha with
         | some a => some (alpha, a, a)
         | none => none
@@ -305,6 +305,10 @@ def lookupScore (rc : Rec α) (bg : List α) (p : α) (min max : Int) : Option (
       | e :: _ =>
         let sum' := sum +ₙ ((pvGet pv e.1).getD Num.zero)
         fin cur.1 e.1 ((e.1, sum') :: pv)
+
+/-- `lookup_score(pvalue, min..=max)` = `(alpha, range.start, range.end)`; `none` = panic -/
+def lookupScore (rc : Rec α) (bg : List α) (p : α) (min max : Int) : Option (Int × α × α) :=
+  lookupScoreQ rc.errorMax (distribution rc.im bg min max) p
 
 /-! ### the two iterators -/
 
